@@ -1,7 +1,7 @@
 (* C09 - parent, ancestors and pop remove exactly the last component. *)
 From Coq Require Import List NArith Bool.
 Import ListNotations.
-From TP Require Import Core Path Unix Win Spec UnixProofs WinProofs.
+From TP Require Import Core Path Unix Win Spec UnixProofs WinProofs WinTrunc.
 
 (* Unix, full strength: the parent is a leading byte slice whose components (re-parsed from
    scratch) are the original's without the last one, and the removed component is a name, "." or ".." *)
@@ -37,20 +37,41 @@ Proof. exact w_parent_slice. Qed.
 Theorem C09_windows_pop : forall l : list N,
   w_pop l = match w_parent l with Some r => (r, true) | None => (l, false) end.
 Proof. exact w_pop_spec. Qed.
-(* C09_windows_parent_some_partial: the parent is the input of the iterator after the back step,
-   and that iterator holds exactly the components without the last one.  Not proved: that
-   re-parsing those bytes from scratch (a new prefix parse of the slice) yields the same
-   list; oracle_c09 checks exactly that on every explored case. *)
-Theorem C09_windows_parent_some_partial : forall l r : list N, w_parent l = Some r ->
+(* the parent is the input of the iterator after the back step, and that iterator holds exactly the
+   components without the last one ... *)
+Theorem C09_windows_parent_state : forall l r : list N, w_parent l = Some r ->
   exists s' c, w_nextb (w_init l) = Some (c, s') /\ r = w_input s' /\ wremovable c = true /\
                w_components l = wcs s' ++ [c] /\ wcs s' = removelast (w_components l).
 Proof. exact w_parent_some. Qed.
+(* ... and read again from scratch -- a new prefix parse of the shortened bytes -- the parent has exactly
+   the components of the path without the last one, for every Windows input, all six prefix kinds and
+   their look-alikes included (this was C09_windows_parent_some_partial until WinTrunc.v).  The core is
+   the stability of the prefix grammar under truncation of what follows the prefix (C09_prefix_truncation):
+   each alternative is stable when its rest is shortened, failure of an alternative is inherited by every
+   leading piece of the input, and the one real exception -- the verbatim prefix with the empty name
+   truncated to nothing, which would read as UNC("?") -- cannot arise from a parent, because what follows
+   that prefix starts with a separator and a back step that leaves nothing has handed out the root. *)
+Theorem C09_windows_parent : forall l r : list N, w_parent l = Some r ->
+  w_components r = removelast (w_components l).
+Proof. exact w_parent_reparse. Qed.
+Theorem C09_prefix_truncation : forall (l : list N) (k : wprefix) (r r' : list N),
+  prefix l = Some (k, r) -> lead r' r -> (k = Verbatim [] -> r' = [] -> r = []) ->
+  exists a, l = a ++ r /\ a <> [] /\ prefix (a ++ r') = Some (k, r') /\ exact_verbatim (a ++ r') = exact_verbatim l.
+Proof. exact prefix_trunc. Qed.
 Print Assumptions C09_windows_parent_none.
 Print Assumptions C09_windows_parent_slice.
 Print Assumptions C09_windows_pop.
-Print Assumptions C09_windows_parent_some_partial.
+Print Assumptions C09_windows_parent_state.
+Print Assumptions C09_windows_parent.
+Print Assumptions C09_prefix_truncation.
 
 (* non-vacuity *)
 Example C09_example : u_parent [47;97;47;98;47;46;47] = Some [47;97] /\ w_parent [67;58] = None
                       /\ w_parent [67;58;92;97] = Some [67;58;92] /\ w_parent [67;58;92] = None.
 Proof. vm_compute. repeat split. Qed.
+(* \\?\UNC\s\sh\a\b : the parent keeps the verbatim UNC prefix and the root *)
+Example C09_windows_example :
+  w_parent [92;92;63;92;85;78;67;92;115;92;115;104;92;97;92;98] = Some [92;92;63;92;85;78;67;92;115;92;115;104;92;97]
+  /\ w_components [92;92;63;92;85;78;67;92;115;92;115;104;92;97]
+     = removelast (w_components [92;92;63;92;85;78;67;92;115;92;115;104;92;97;92;98]).
+Proof. vm_compute. split; reflexivity. Qed.
